@@ -18,7 +18,7 @@ import (
 //	synack rst rstack                                                            TCP direct replies to a SYN
 //	sack1 sack2 sack3 sackTS plainack                                            duplicate ACKs to a SACK probe
 var ICMPErrForms4 = []string{"te28", "teFull", "teExt", "teOpts6", "teOpts15", "teQttl0", "teQttl64", "teQcsum", "teQtos"}
-var ICMPErrForms6 = []string{"teFull", "teQttl0", "teQttl64", "teQ16"}
+var ICMPErrForms6 = []string{"teFull", "teQttl0", "teQttl64", "teQ16", "teQtos"}
 var DUForms = []string{"duPort", "duHost", "duAdmin"}
 
 // BuildCtx carries what direct TCP replies need beyond the probe.
@@ -162,7 +162,9 @@ func Build(form string, p *refcodec.Packet, from netip.Addr, c BuildCtx) ([]byte
 				q[1] = 0xb8
 				refcodec.FixIPv4Checksum(q)
 			} else {
-				q[1] |= 0x20
+				// traffic class 0xb8 (DSCP EF): high nibble in byte 0, low nibble in byte 1
+				q[0] = 0x6b
+				q[1] = q[1]&0x0f | 0x80
 			}
 		}
 		if p.V == 4 {
